@@ -20,11 +20,17 @@ print(json.dumps(parse_sig(case["sql"], case["dialect"])))
 """
 
 
-def parse_sig(sql, dialect):
-    """(tree tuple with raws, metas and positions, violation descriptions) as JSON-comparable data."""
+INLINE = ["-- sqlfluff:indentation:indented_joins:True\n", "-- sqlfluff:indentation:indented_using_on:False\n",
+          "-- sqlfluff:indentation:template_blocks_indent:False\n", "-- sqlfluff:max_parse_depth:40\n",
+          "-- sqlfluff:indentation:indented_ctes:True\n-- sqlfluff:indentation:indented_then:False\n"]
+
+
+def parse_sig(sql, dialect, linter=None):
+    """(tree tuple with raws, metas and positions, violation descriptions) as JSON-comparable data.
+    With `linter` the same Linter object is re-used (state carried from earlier files); otherwise a fresh one."""
     from sqlfluff.core import Linter
 
-    lnt = Linter(config=mkcfg(dialect=dialect))
+    lnt = linter or Linter(config=mkcfg(dialect=dialect))
     ps = lnt.parse_string(sql)
     out = []
     for v in ps.parsed_variants:
@@ -92,7 +98,8 @@ class C06(Check):
     level = "exploration"
     rule = (
         "Domain: fixture SQL (<=600 chars quick) of all dialects, unmutated and with Hypothesis-drawn mutations, plus a "
-        "history: 0-3 other (dialect, sql) inputs parsed in the same process between two parses of the case; a "
+        "history: 0-3 other (dialect, sql) inputs (a third of them carrying inline '-- sqlfluff:' directives, half of them "
+        "in the case's own dialect) parsed with the same Linter objects between two parses of the case; a "
         "Hypothesis-drawn ~6% are also parsed in a fresh subprocess. Oracle (differential): tree tuple with raws, metas "
         "and positions and the LXR/PRS violation lists are equal between the normal parse, a parse with the parse cache "
         "always missing, a parse with first-token pruning returning all options (the *un*optimised run is the "
@@ -121,9 +128,13 @@ class C06(Check):
 
     def strategy(self, tier):
         mx = 600 if tier == "quick" else 1200
-        other = gens.corpus_case(maxsize=400, mutate=False).map(lambda c: {"dialect": c["dialect"], "sql": c["sql"]})
+        # other inputs parsed in between: another fixture (any dialect), sometimes with inline "-- sqlfluff:" directives
+        # (non-core sections too), sometimes forced into the case's own dialect so that they share its Linter
+        other = st.tuples(gens.corpus_case(maxsize=400, mutate=False), st.integers(0, 2), st.sampled_from(INLINE), st.booleans())
         return st.tuples(gens.corpus_case(maxsize=mx), st.lists(other, max_size=3), st.integers(0, 15)).map(
-            lambda t: dict(t[0], between=t[1], fresh=(t[2] == 0)))
+            lambda t: dict(t[0], fresh=(t[2] == 0), between=[
+                {"dialect": t[0]["dialect"] if o[3] else o[0]["dialect"], "sql": (o[2] if o[1] == 0 else "") + o[0]["sql"]}
+                for o in t[1]]))
 
     def examples(self, tier):
         return 22 if tier == "quick" else 700
@@ -131,8 +142,17 @@ class C06(Check):
     def run_case(self, case):
         out = Outcome(labels=["dialect:" + case["dialect"]] + (["mutated"] if case.get("mutated") else []))
         sql, d = case["sql"], case["dialect"]
+        from sqlfluff.core import Linter
+
+        linters = {}
+
+        def shared(dialect):
+            if dialect not in linters:
+                linters[dialect] = Linter(config=mkcfg(dialect=dialect))
+            return linters[dialect]
+
         with _Instrument() as ins:
-            base = guard(parse_sig, sql, d)
+            base = guard(parse_sig, sql, d, shared(d))
         if isinstance(base, Crash):
             out.excluded = "crash(C04):" + base.type
             return out
@@ -152,8 +172,10 @@ class C06(Check):
         if case.get("between"):
             out.label("history:%d" % len(case["between"]))
             for o in case["between"]:
-                guard(parse_sig, o["sql"], o["dialect"])
-        again = guard(parse_sig, sql, d)
+                guard(parse_sig, o["sql"], o["dialect"], shared(o["dialect"]))
+                if o["sql"].startswith("-- sqlfluff:"):
+                    out.label("history-with-inline-config")
+        again = guard(parse_sig, sql, d, shared(d))
         if isinstance(again, Crash) or again != base:
             out.fail("second parse in the same process differs" + ("" if isinstance(again, Crash) else
                      " at " + str(first_divergence(again, base))), which="history", kind="diverge")
